@@ -109,6 +109,11 @@ def rule_induction(ctx):
         fl = acc[0][2][0][1]
         if fl[:2] == ("call", "WithWarnings::flawless") and fl[2][0][0] == "list":
             pair = fl[2][0][1]
+        elif fl[:2] == ("call", "WithWarnings::flawless") and fl[2][0][0] == "ctor" and len(fl[2][0][2]) == 2:
+            # the two obligations as a struct with named fields: which field is the base case and which the step is read off their values
+            IND_FIELDS.clear()
+            IND_FIELDS["struct"] = fl[2][0][1]
+            IND_FIELDS["fields"] = dict(fl[2][0][2])
 
     def variants(t):
         # the induction variable may be built from the name directly or from its to_string()
@@ -119,6 +124,12 @@ def rule_induction(ctx):
     step = ("call", "Formula::universal_closure", (K("Formula::BinaryFormula", connective=K("BinaryConnective::Implication"),
                                                       lhs=K("Formula::BinaryFormula", connective=K("BinaryConnective::Conjunction"), lhs=cmp_(), rhs=FF),
                                                       rhs=("call", "Formula::substitute", (FF, IV, succ))),))
+    if pair is None and IND_FIELDS.get("fields"):
+        fb_ = [k_ for k_, v_ in IND_FIELDS["fields"].items() if v_ in variants(base)]
+        fs_ = [k_ for k_, v_ in IND_FIELDS["fields"].items() if v_ in variants(step)]
+        if len(fb_) == 1 and len(fs_) == 1 and fb_ != fs_:
+            pair = (IND_FIELDS["fields"][fb_[0]], IND_FIELDS["fields"][fs_[0]])
+            IND_FIELDS["order"] = (fb_[0], fs_[0])
     ctx.add("TPL", "induction:base", pair is not None and len(pair) == 2 and pair[0] in variants(base), site, "base case = universal_closure(F[N := n])", construct=pair[0] if pair else [list(map(str, k_)) for k_ in by])
     ctx.add("TPL", "induction:step", pair is not None and len(pair) == 2 and pair[1] in variants(step), site, "step = universal_closure((N >= n and F) -> F[N := N + 1])", construct=pair[1] if pair else None)
     ctx.add("TPL", "induction:refusals", len(by) == 2, site, "on the accepted shape the only refusal is the variable-list test (%d outcomes)" % len(by))
@@ -340,6 +351,13 @@ def rule_from_specification(ctx):
 
 def rule_general_lemma(ctx):
     fx = ctx.facts
+    if "order" not in IND_FIELDS:
+        # which field of a result struct is the base case is decided by the induction rule
+        try:
+            sub_ = type(ctx)(ctx.prop, ctx.tier, ctx.facts)
+            rule_induction(sub_)
+        except Exception:
+            pass
     b = fx.fn("try_from", impl_self="verifying::outline::GeneralLemma")
     site = ctx.site(b)
     v = sym.Eval(fx, inline_depth=0).function(b)
@@ -362,7 +380,8 @@ def rule_general_lemma(ctx):
         if ok:
             for i, c in enumerate(cj):
                 ok = ok and c[:2] == ("call", "AnnotatedFormula::into_problem_formula") and c[2][1] == ("ctor", "Role::Conjecture", ()) and \
-                    dict(c[2][0][2]).get("formula") == ("proj", IL, (("tuple", str(i)),)) and dict(c[2][0][2]).get("direction") == ("place", "annotated_formula.direction")
+                    dict(c[2][0][2]).get("formula") in (("proj", IL, (("tuple", str(i)),)),) + ((("proj", IL, ((IND_FIELDS["struct"], IND_FIELDS["order"][i]),)),) if "order" in IND_FIELDS else ()) \
+                    and dict(c[2][0][2]).get("direction") == ("place", "annotated_formula.direction")
     ctx.add("TPL", "inductive-lemma", ok, site, "inductive lemma: conjectures = [base, step] from inductive_lemma()?, consequence = the original formula as axiom")
     other = a.get("Role::Assumption | Role::Definition | Role::Spec")
     ctx.add("TPL", "other-roles", other is not None and other[:2] == ("ctor", "Result::Err") and len(a) == 3, site, "other roles cannot become lemmas")
@@ -378,6 +397,9 @@ def _copied_local(e):
     while cur.get("k") == "MethodCall" and cur.get("method") in _COPY_METHODS and not cur.get("args"):
         cur = strip(cur["recv"])
     return local_of(cur)
+
+
+IND_FIELDS = {}
 
 
 def rule_sequencing(ctx):
